@@ -231,6 +231,8 @@ class Real:
                     ctx.add_resource(value, types=types, description="d", **kwargs)
                 else:
                     ctx.add_resource(value, name, types, description="d", **kwargs)
+                if isinstance(types, list):
+                    types.clear()                    # the caller goes on using (here: emptying) the list it passed
                 self.remember(value, cid)
                 return "ok", cid
             if a == "AddFac":
@@ -289,6 +291,8 @@ class Real:
                     await self.via_agent(c, lambda: ac.add_resource_factory(cbk, name, description="fd", **kw))
                 else:
                     ctx.add_resource_factory(cbk, name, description="fd", **kw)
+                if isinstance(kw.get("types"), list):
+                    kw["types"].clear()              # the caller goes on using (here: emptying) the list it passed
                 return "ok", None
             if a == "Inject":
                 return await self.inject_step(obs)
